@@ -90,9 +90,26 @@ def exact_family(name, reg0, ids, seeds, st):
                                                     "case": {"op": "rust_example", "reg": regdsl.encode(reg0).hex(), "set": st.replay(), "id": str(i), "seed": str(seed), "nseeds": "1"}}]}
     return Family(name, mk, run, target_prefixes=16, setup=setup, on_panic=on_panic)
 
+def marker_registry():
+    """unused-parameter markers: a parameter used by two fields next to an unused one; two instantiations of one generic
+    type in ONE example (state kept across items of one call), one of them with an argument that coincides with a fixed component"""
+    from regdsl import prim, seq, tup, comp, enum, var, fld
+    return [prim("U8"), prim("Bool"), seq(0), prim("U32"),
+            comp(["m", "Pair"], [fld("a", 0, "T"), fld("b", 0, "T")], params=[("T", 0), ("U", 1)]),
+            comp(["m", "Triple"], [fld("a", 3, "V"), fld("b", 3, "V"), fld("c", 3, "V")], params=[("T", 0), ("U", 1), ("V", 3)]),
+            comp(["m", "Tagged"], [fld("bytes", 2, "Vec<u8>")], params=[("T", 1)]),
+            comp(["m", "Tagged"], [fld("bytes", 2, "Vec<u8>")], params=[("T", 3)]),
+            tup([6, 7]), tup([7, 6]),
+            enum(["m", "E"], [var("A", [fld(None, 1, "U"), fld(None, 1, "U")], 0), var("B", [fld("x", 1, "U")], 1)], params=[("T", 0), ("U", 1)]),
+            comp(["m", "Holder"], [fld("p", 4, "Pair<u8, bool>"), fld("t", 5, "Triple<u8, bool, u32>"), fld("e", 10, "E<u8, bool>"), fld("g", 8, "(Tagged<bool>, Tagged<u32>)")]),
+            comp(["m", "Tagged"], [fld("bytes", 2, "Vec<u8>")], params=[("T", 0)]), tup([6, 12]), tup([12, 6])]
 def families(eng, tier, seed):
     C = corpus(); fams = []; limit = 60 if tier == "quick" else 400; rnd = random.Random(seed)
     sets = SETS[:2] if tier == "quick" else SETS
+    mr = marker_registry()
+    for i in range(4, len(mr)):
+        for si, st in enumerate(sets): fams.append(make_family("rustexample-markers-%d-s%d" % (i, si), mr, i, st, limit))
+    fams.append(exact_family("exact-markers", mr, list(range(4, len(mr))), [seed * 3 + 1, 42], sets[0]))
     for n, r in C.items():
         if n in SKIP or any(t["def"][0] == "bitseq" or t["def"] in (("primitive", "U256"), ("primitive", "I256")) for t in r): continue
         for i in range(len(r)):
@@ -116,9 +133,28 @@ def confirm(v, real):
         if ex == "ERR": continue
         if check_example(reg, i, tokenize(ex), mt, rt): return True
     return False
+def coincident_unused_param(reg, i):
+    """type i has a parameter that no field's recorded type name mentions (unused in the source) although its argument's
+    id occurs inside some field's type: the generator, which recognises parameters by id, takes it for used in THIS
+    instantiation, while the item emitted for the path comes from the first same-path entry"""
+    import re
+    t = reg[i]
+    if t["def"][0] != "composite": return False
+    fields = t["def"][1]
+    for n, pid in t["params"]:
+        if pid is None: continue
+        if any(re.search(r"(?<![A-Za-z0-9_])%s(?![A-Za-z0-9_])" % re.escape(n), f.get("type_name") or "") for f in fields): continue
+        if any(pid in (set(regdsl.reachable(reg, [f["ty"]], with_params=False)) | {f["ty"]}) for f in fields): return True
+    return False
 def classify(v):
     w = v["what"]
     if v.get("kind") != "lockstep": return v.get("kind", "other")
+    import re
+    m = re.search(r"\(type #(\d+)\): (\d+) field values, the generated item has (\d+) fields \(incl. the marker", w)
+    if m and int(m.group(2)) + 1 == int(m.group(3)):
+        try:
+            if coincident_unused_param(regdsl.decode(bytes.fromhex(v["case"]["reg"])), int(m.group(1))): return "marker-of-coincident-parameter"
+        except Exception: pass
     for k, name in (("does not carry the primitive's type u16", "u16-literal-is-ident-n"), ("marker field is called", "marker-field-name"), ("field values, the generated item has", "marker-arity"),
                     ("is a parenthesised expression, not a 1-tuple", "one-tuple-without-comma"), ("does not parse", "parse"), ("path", "path"), ("Compact(", "compact-wrapping"), ("literal", "literal"), ("elements for an array", "array-arity")):
         if k in w: return name
